@@ -23,6 +23,7 @@ const (
 	RetErr    RetKind = iota // func(...) error                -> Go.R Unit
 	RetValErr                // func(...) (T, error)            -> Go.R T
 	RetVal                   // func(...) T                     -> T
+	RetHandler               // func(w, r, ...) (http handler)  -> List Write (the responses written, in order)
 )
 
 // OutParam: the Go callee writes through a pointer argument; its Lean twin returns the new value.
@@ -37,6 +38,7 @@ var outParams = map[string]OutParam{
 	"oidc.CheckSignature":        {3, true},
 	"CheckSignature":             {3, true},
 	"ValidateRefreshTokenScopes": {1, true},
+	"ParseRequestObject":         {1, true},
 }
 
 type FuncSpec struct {
@@ -59,6 +61,8 @@ type tr struct {
 	unsup      []string
 	indent     int
 	errInScope bool // inside a `.error err =>` branch
+	pendingPost string // write-back of a field out-parameter (see okPattern)
+	loopDepth  int  // inside the body of a generically translated range loop (returns become `some …`)
 }
 
 func (t *tr) bad(reason string, n ast.Node) string {
@@ -82,7 +86,8 @@ func ignorableCall(c *ast.CallExpr) bool {
 	switch {
 	case strings.HasSuffix(s, "Tracer.Start"), strings.HasSuffix(s, "tracer.Start"), s == "span.End", strings.HasPrefix(s, "logger."),
 		strings.HasSuffix(s, ".Debug"), strings.HasSuffix(s, ".Info"), strings.HasSuffix(s, ".Error") && strings.Contains(s, "ogger"),
-		s == "span.RecordError", s == "span.SetStatus":
+		s == "span.RecordError", s == "span.SetStatus",
+		strings.Contains(s, "Logger()."), s == "r.WithContext":
 		return true
 	}
 	return false
@@ -150,7 +155,106 @@ var pkgMap = map[string]string{
 	"str.Contains": "Go.contains", "bytes.Equal": "Go.bytesEqual",
 	"oidc.FromTime": "Go.fromTime", "FromTime": "Go.fromTime",
 	"time.Time{}": "Go.zeroTime",
+	"http.StatusBadRequest": "(400 : Int)", "http.StatusFound": "(302 : Int)", "http.StatusOK": "(200 : Int)",
+	"http.Error": "Hand.httpError", "http.Redirect": "Hand.httpRedirect",
 }
+
+// zero values of `var x T` declarations
+var zeroValues = map[string]string{
+	"string": "(\"\" : String)", "bool": "false", "int": "(0 : Int)",
+	"oidc.ResponseMode": "(\"\" : String)", "oidc.ResponseType": "(\"\" : String)",
+}
+
+// names of all translated functions (filled by main from the whitelist): a `return f(...)` in a
+// function returning only `error` is a tail call when f is one of them
+var translatedFuncs = map[string]bool{}
+
+// errChain: `oidc.ErrX().WithDescription(..).WithParent(..)` -> "ErrX" ("" if e is not such a chain)
+func errChain(e ast.Expr) string {
+	cur := e
+	for {
+		c, ok := cur.(*ast.CallExpr)
+		if !ok {
+			return ""
+		}
+		switch f := c.Fun.(type) {
+		case *ast.Ident:
+			if isErrCtor(f.Name) {
+				return f.Name
+			}
+			return ""
+		case *ast.SelectorExpr:
+			if isErrCtor(f.Sel.Name) {
+				return f.Sel.Name
+			}
+			if strings.HasPrefix(f.Sel.Name, "With") {
+				cur = f.X
+				continue
+			}
+			return ""
+		default:
+			return ""
+		}
+	}
+}
+
+// ErrXyz (not `Error`)
+func isErrCtor(n string) bool {
+	return strings.HasPrefix(n, "Err") && len(n) > 3 && n[3] >= 'A' && n[3] <= 'Z'
+}
+
+// bindTarget: binder and write-back for an assignment target (`x` or the field `a.F`)
+func (t *tr) bindTarget(e ast.Expr) (binder, post string) {
+	if sel, ok := e.(*ast.SelectorExpr); ok {
+		if id, ok := sel.X.(*ast.Ident); ok {
+			a := t.ident(id.Name)
+			b := "v_" + id.Name + "_" + sel.Sel.Name
+			return b, "let " + a + " := ({ " + a + " with " + sel.Sel.Name + " := " + b + " } : type_of% " + a + ");\n" + t.pad()
+		}
+		return t.bad("assignment target", e), ""
+	}
+	v := exprString(e)
+	if v == "_" {
+		return "_", ""
+	}
+	return t.ident(v), ""
+}
+
+func hasArgW(c *ast.CallExpr) bool {
+	for _, a := range c.Args {
+		if id, ok := a.(*ast.Ident); ok && (id.Name == "w" || id.Name == "res") {
+			return true
+		}
+	}
+	return false
+}
+
+// writeCall: a call that writes to the http.ResponseWriter `w` (handler mode): `w` and `r` are dropped
+func (t *tr) writeCall(c *ast.CallExpr) string {
+	full := exprString(c.Fun)
+	var as []string
+	for _, a := range c.Args {
+		if id, ok := a.(*ast.Ident); ok && (id.Name == "w" || id.Name == "r" || id.Name == "res") {
+			continue
+		}
+		if isCtxArg(a) {
+			continue
+		}
+		as = append(as, t.expr(a))
+	}
+	args := strings.Join(as, " ")
+	if r, ok := t.spec.Rename[full+"()"]; ok {
+		return "(" + r + " " + args + ")"
+	}
+	if r, ok := pkgMap[full]; ok {
+		return "(" + r + " " + args + ")"
+	}
+	if id, ok := c.Fun.(*ast.Ident); ok {
+		return "(" + id.Name + " now " + args + ")"
+	}
+	return t.bad("write call "+full, c)
+}
+
 
 func (t *tr) ident(name string) string {
 	if r, ok := t.spec.Rename[name]; ok {
@@ -303,10 +407,21 @@ func (t *tr) okPattern(call ast.Expr, v string) string {
 		return v
 	}
 	name := strings.TrimPrefix(exprString(c.Args[op.Index]), "&")
+	if strings.Contains(name, ".") {
+		// the out-parameter is a field (`r.Data`): bind a fresh name, write it back before the continuation
+		name, t.pendingPost = t.bindTarget(c.Args[op.Index])
+	}
 	if v == "_" || v == "" {
 		return name
 	}
 	return "(" + v + ", " + name + ")"
+}
+
+// takePost returns (and clears) the write-back recorded by the last okPattern
+func (t *tr) takePost() string {
+	p := t.pendingPost
+	t.pendingPost = ""
+	return p
 }
 
 func (t *tr) args(as []ast.Expr) string {
@@ -329,6 +444,9 @@ func (t *tr) argsOf(callee string, as []ast.Expr) string {
 }
 
 func (t *tr) call(c *ast.CallExpr) string {
+	if n := errChain(c); n != "" {
+		return leanStr(n)
+	}
 	fun := c.Fun
 	if ix, ok := fun.(*ast.IndexExpr); ok { // generic instantiation
 		fun = ix.X
@@ -489,7 +607,19 @@ func (t *tr) isNilValue(e ast.Expr) bool {
 }
 
 func (t *tr) ret(r *ast.ReturnStmt) string {
+	if t.loopDepth > 0 {
+		return "(some " + t.ret0(r) + ")"
+	}
+	return t.ret0(r)
+}
+
+func (t *tr) ret0(r *ast.ReturnStmt) string {
 	switch t.spec.Ret {
+	case RetHandler:
+		if len(r.Results) != 0 {
+			return t.bad("return with values in a handler", r)
+		}
+		return "[]"
 	case RetErr:
 		if len(r.Results) != 1 {
 			return t.bad("return arity", r)
@@ -499,6 +629,16 @@ func (t *tr) ret(r *ast.ReturnStmt) string {
 				return "(.ok " + t.spec.RetParam + ")"
 			}
 			return "Go.ok"
+		}
+		// return f(...) where f is itself a translated function returning `error`: tail call
+		if c, ok := r.Results[0].(*ast.CallExpr); ok && errChain(c) == "" {
+			name := exprString(c.Fun)
+			if i := strings.LastIndex(name, "."); i >= 0 {
+				name = name[i+1:]
+			}
+			if translatedFuncs[name] && t.spec.RetParam == "" {
+				return t.expr(c)
+			}
 		}
 		return "(.error " + t.errValue(r.Results[0]) + ")"
 	case RetValErr:
@@ -547,12 +687,42 @@ func (t *tr) ret(r *ast.ReturnStmt) string {
 		}
 		return t.bad("return of value and error", r)
 	case RetVal:
+		if len(r.Results) > 1 {
+			// (v1, ..., vn) without error: a tuple
+			var vs []string
+			for _, v := range r.Results {
+				vs = append(vs, t.expr(v))
+			}
+			return "(" + strings.Join(vs, ", ") + ")"
+		}
 		if len(r.Results) != 1 {
 			return t.bad("return arity", r)
 		}
 		return t.expr(r.Results[0])
 	}
 	return t.bad("return", r)
+}
+
+func isErrIsNil(e ast.Expr) bool {
+	b, ok := e.(*ast.BinaryExpr)
+	if !ok || b.Op != token.EQL {
+		return false
+	}
+	l, ok1 := b.X.(*ast.Ident)
+	r, ok2 := b.Y.(*ast.Ident)
+	return ok1 && ok2 && l.Name == "err" && r.Name == "nil"
+}
+
+// typeAssertName: the flag name of `x.(T)`: T without package, or has_<Method> for an anonymous interface
+func typeAssertName(e ast.Expr) string {
+	if it, ok := e.(*ast.InterfaceType); ok && it.Methods != nil && len(it.Methods.List) > 0 && len(it.Methods.List[0].Names) > 0 {
+		return "has_" + it.Methods.List[0].Names[0].Name
+	}
+	tn := exprString(e)
+	if i := strings.LastIndex(tn, "."); i >= 0 {
+		tn = tn[i+1:]
+	}
+	return tn
 }
 
 func isErrNotNil(e ast.Expr) bool {
@@ -594,6 +764,14 @@ func (t *tr) block(stmts []ast.Stmt, k cont) string {
 	case *ast.ReturnStmt:
 		return t.ret(x)
 	case *ast.DeclStmt:
+		// var x T  (zero value) for the basic types; other declarations carry no decision
+		if gd, ok := x.Decl.(*ast.GenDecl); ok && gd.Tok == token.VAR && len(gd.Specs) == 1 {
+			if vs, ok := gd.Specs[0].(*ast.ValueSpec); ok && len(vs.Names) == 1 && len(vs.Values) == 0 && vs.Type != nil {
+				if z, ok := zeroValues[exprString(vs.Type)]; ok {
+					return "let " + t.ident(vs.Names[0].Name) + " := " + z + ";\n" + t.pad() + rest()
+				}
+			}
+		}
 		return rest()
 	case *ast.DeferStmt:
 		if ignorableCall(x.Call) {
@@ -604,6 +782,10 @@ func (t *tr) block(stmts []ast.Stmt, k cont) string {
 		if c, ok := x.X.(*ast.CallExpr); ok {
 			if ignorableCall(c) {
 				return rest()
+			}
+			// handler mode: a call that writes to the ResponseWriter; the handler goes on afterwards
+			if t.spec.Ret == RetHandler && hasArgW(c) {
+				return "(" + t.writeCall(c) + " ++\n" + t.pad() + rest() + ")"
 			}
 			// mutator method on a model value: recv.SetX(a)  ->  let recv := recv.SetX a
 			if sel, ok := c.Fun.(*ast.SelectorExpr); ok && strings.HasPrefix(sel.Sel.Name, "Set") {
@@ -618,13 +800,15 @@ func (t *tr) block(stmts []ast.Stmt, k cont) string {
 		// x, ok := e.(T)   type assertion: the model value carries a flag `is_T`
 		if len(x.Lhs) == 2 && len(x.Rhs) == 1 {
 			if ta, ok := x.Rhs[0].(*ast.TypeAssertExpr); ok && ta.Type != nil {
-				tn := exprString(ta.Type)
-				if i := strings.LastIndex(tn, "."); i >= 0 {
-					tn = tn[i+1:]
-				}
+				tn := typeAssertName(ta.Type)
 				v, okv := exprString(x.Lhs[0]), exprString(x.Lhs[1])
 				e := t.expr(ta.X)
 				return "let " + v + " := " + e + ";\n" + t.pad() + "let " + okv + " := (" + e + ").is_" + tn + ";\n" + t.pad() + rest()
+			}
+			// a, b := f(...)   two plain results (no error): tuple destructuring
+			if call, ok := x.Rhs[0].(*ast.CallExpr); ok && !ignorableCall(call) && exprString(x.Lhs[1]) != "err" {
+				a, b := t.ident(exprString(x.Lhs[0])), t.ident(exprString(x.Lhs[1]))
+				return "let (" + a + ", " + b + ") := " + t.expr(call) + ";\n" + t.pad() + rest()
 			}
 		}
 		// a, b, err := f(...)   followed by   if err != nil { ... }
@@ -663,12 +847,7 @@ func (t *tr) block(stmts []ast.Stmt, k cont) string {
 			}
 			if ok && len(stmts) > 1 {
 				if ifs, ok := stmts[1].(*ast.IfStmt); ok && ifs.Init == nil && isErrNotNil(ifs.Cond) && ifs.Else == nil {
-					v := exprString(x.Lhs[0])
-					if v == "_" {
-						v = "_"
-					} else {
-						v = t.ident(v)
-					}
+					v, post := t.bindTarget(x.Lhs[0])
 					cont := memo(func() string { return t.block(stmts[2:], k) })
 					t.indent++
 					saved := t.errInScope
@@ -676,7 +855,7 @@ func (t *tr) block(stmts []ast.Stmt, k cont) string {
 					errBranch := t.block(ifs.Body.List, cont)
 					t.errInScope = saved
 					t.indent--
-					return "(match " + t.expr(call) + " with\n" + t.pad() + "| .error err => " + errBranch + "\n" + t.pad() + "| .ok " + t.okPattern(call, v) + " =>\n" + t.pad() + cont() + ")"
+					return "(match " + t.expr(call) + " with\n" + t.pad() + "| .error err => " + errBranch + "\n" + t.pad() + "| .ok " + t.okPattern(call, v) + " =>\n" + t.pad() + post + t.takePost() + cont() + ")"
 				}
 			}
 			return t.bad("two-value assignment without error check", x)
@@ -696,12 +875,24 @@ func (t *tr) block(stmts []ast.Stmt, k cont) string {
 				errBranch := t.block(ifs.Body.List, cont)
 				t.errInScope = saved
 				t.indent--
-				return "(match " + t.expr(x.Rhs[0]) + " with\n" + t.pad() + "| .error err => " + errBranch + "\n" + t.pad() + "| .ok " + t.okPattern(x.Rhs[0], "_") + " =>\n" + t.pad() + cont() + ")"
+				// handler mode: err := F(w, ...) writes a response (on success) or reports an error
+				if wc, ok := x.Rhs[0].(*ast.CallExpr); ok && t.spec.Ret == RetHandler && hasArgW(wc) {
+					return "(match " + t.writeCall(wc) + " with\n" + t.pad() + "| .error err => " + errBranch + "\n" + t.pad() + "| .ok ws_ =>\n" + t.pad() + "(ws_ ++ " + cont() + "))"
+				}
+				return "(match " + t.expr(x.Rhs[0]) + " with\n" + t.pad() + "| .error err => " + errBranch + "\n" + t.pad() + "| .ok " + t.okPattern(x.Rhs[0], "_") + " =>\n" + t.pad() + t.takePost() + cont() + ")"
 			}
 		}
 		if len(x.Lhs) == 1 && len(x.Rhs) == 1 {
 			if c, ok := x.Rhs[0].(*ast.CallExpr); ok && exprString(c.Fun) == "new" {
 				return rest() // pure allocation of an out-parameter target
+			}
+			if c, ok := x.Rhs[0].(*ast.CallExpr); ok && ignorableCall(c) {
+				return rest() // bookkeeping (logger = logger.With(..), r = r.WithContext(ctx))
+			}
+			if _, ok := x.Lhs[0].(*ast.SelectorExpr); ok {
+				// a.F = e   ->   let a := { a with F := e }
+				b, post := t.bindTarget(x.Lhs[0])
+				return "let " + b + " := " + t.expr(x.Rhs[0]) + ";\n" + t.pad() + post + rest()
 			}
 			return "let " + t.ident(exprString(x.Lhs[0])) + " := " + t.expr(x.Rhs[0]) + ";\n" + t.pad() + rest()
 		}
@@ -725,7 +916,34 @@ func (t *tr) block(stmts []ast.Stmt, k cont) string {
 					okBranch = t.elseBranch(x.Else, cont)
 				}
 				t.indent--
-				return "(match " + t.expr(as.Rhs[0]) + " with\n" + t.pad() + "| .error err => " + errBranch + "\n" + t.pad() + "| .ok " + t.okPattern(as.Rhs[0], "_") + " =>\n" + t.pad() + okBranch + ")"
+				return "(match " + t.expr(as.Rhs[0]) + " with\n" + t.pad() + "| .error err => " + errBranch + "\n" + t.pad() + "| .ok " + t.okPattern(as.Rhs[0], "_") + " =>\n" + t.pad() + t.takePost() + okBranch + ")"
+			}
+			// if err := f(...); err == nil { body }   (the success branch is the guarded one)
+			if ok && len(as.Lhs) == 1 && exprString(as.Lhs[0]) == "err" && isErrIsNil(x.Cond) && x.Else == nil {
+				t.indent++
+				okBranch := t.block(x.Body.List, cont)
+				saved := t.errInScope
+				t.errInScope = true
+				errBranch := cont()
+				t.errInScope = saved
+				t.indent--
+				return "(match " + t.expr(as.Rhs[0]) + " with\n" + t.pad() + "| .ok " + t.okPattern(as.Rhs[0], "_") + " =>\n" + t.pad() + t.takePost() + okBranch + "\n" + t.pad() + "| .error err =>\n" + t.pad() + errBranch + ")"
+			}
+			// if v, ok := e.(T); ok { body }
+			if ok && len(as.Lhs) == 2 && len(as.Rhs) == 1 && x.Else == nil && exprString(x.Cond) == exprString(as.Lhs[1]) {
+				if ta, isTA := as.Rhs[0].(*ast.TypeAssertExpr); isTA && ta.Type != nil {
+					v, okv := exprString(as.Lhs[0]), exprString(as.Lhs[1])
+					e := t.expr(ta.X)
+					t.indent++
+					thenB := t.block(x.Body.List, cont)
+					t.indent--
+					elseB := cont()
+					if thenB == elseB { // the guarded statements carry no decision (logging)
+						return elseB
+					}
+					return "let " + v + " := " + e + ";\n" + t.pad() + "let " + okv + " := (" + e + ").is_" + typeAssertName(ta.Type) + ";\n" + t.pad() +
+						"(if " + okv + " then\n" + t.pad() + "  " + thenB + "\n" + t.pad() + "else\n" + t.pad() + elseB + ")"
+				}
 			}
 			return t.bad("if with init", x)
 		}
@@ -750,6 +968,17 @@ func (t *tr) block(stmts []ast.Stmt, k cont) string {
 					return "(if (Go.any " + t.expr(x.X) + " (fun " + v + " => " + t.expr(ifs.Cond) + ")) then\n" + t.pad() + "  " + t.ret(ret) + "\n" + t.pad() + "else\n" + t.pad() + rest() + ")"
 				}
 			}
+		}
+		// general form: for _, v := range L { BODY }  where BODY only returns or falls through:
+		//   match Go.forRange L (fun v => BODY') with | some r => r | none => rest      (BODY' : Option result)
+		if x.Value != nil && x.Tok == token.DEFINE && (x.Key == nil || exprString(x.Key) == "_") {
+			v := exprString(x.Value)
+			t.loopDepth++
+			t.indent++
+			body := t.block(x.Body.List, func() string { return "none" })
+			t.indent--
+			t.loopDepth--
+			return "(match (Go.forRange " + t.expr(x.X) + " (fun " + v + " =>\n" + t.pad() + "  " + body + ")) with\n" + t.pad() + "| some r_ => r_\n" + t.pad() + "| none =>\n" + t.pad() + rest() + ")"
 		}
 		return t.bad("range loop", x)
 	}
@@ -811,9 +1040,15 @@ func (t *tr) switchStmt(s *ast.SwitchStmt, cont cont) string {
 // translateFunc renders one Lean definition.
 func translateFunc(fset *token.FileSet, fd *ast.FuncDecl, spec *FuncSpec) (string, []string) {
 	t := &tr{spec: spec, fset: fset, indent: 1}
-	body := t.block(fd.Body.List, nil)
+	var k0 cont
+	if spec.Ret == RetHandler {
+		k0 = func() string { return "[]" } // a handler may fall off its end
+	}
+	body := t.block(fd.Body.List, k0)
 	var rt string
 	switch spec.Ret {
+	case RetHandler:
+		rt = "List Write"
 	case RetErr:
 		rt = "Go.R Unit"
 		if spec.RetParam != "" {
